@@ -274,6 +274,44 @@ def _value_of_out_form(e):
     return ast.fix_missing_locations(N().visit(e))
 
 
+def _place_value(fn, place, call):
+    """the value a storage place (local name or `self.<attr>`: a preallocated workspace) holds when `call` runs, read from the statement
+    list that holds the call: the LAST complete write before the call among the unconditional statements of that list (`place = v`,
+    `place[:] = v`, `place[...] = v`, `np.<ufunc>(a, b, out=place)`), provided every other mention of the place in `fn` is a read handed
+    to `call` itself or lies after it.  -> (expression | None, reason)"""
+    from .C05 import exec_order
+    txt = src(place)
+    full = lambda sl: (isinstance(sl, ast.Slice) and sl.lower is None and sl.upper is None and sl.step is None) or \
+        (isinstance(sl, ast.Constant) and sl.value is Ellipsis)
+    mentions = [n for n in ast.walk(fn) if isinstance(n, (ast.Name, ast.Attribute)) and src(n) == txt
+                and not any(n is x for x in ast.walk(call))]
+    best = None
+    for n in mentions:
+        before, st, st_c = exec_order(fn, n, call)
+        if before is None:
+            return None, f"a mention of `{txt}` is not ordered against the kernel call by the statement structure"
+        if before is False:
+            continue
+        val = None
+        if isinstance(st, ast.Assign) and len(st.targets) == 1:
+            t = st.targets[0]
+            if t is n or (isinstance(t, ast.Subscript) and t.value is n and full(t.slice)):
+                val = st.value
+        elif isinstance(st, ast.Expr) and isinstance(st.value, ast.Call) and [k.arg for k in st.value.keywords] == ["out"] \
+                and st.value.keywords[0].value is n:
+            val = st.value
+        if val is None:
+            return None, f"`{src(st)[:80]}` uses `{txt}` before the kernel call in a way that is not a complete write"
+        if any(isinstance(x, (ast.Name, ast.Attribute)) and src(x) == txt and x is not n for x in ast.walk(st)):
+            return None, f"`{src(st)[:80]}` defines `{txt}` from itself"
+        idx = st
+        if best is None or exec_order(fn, best[0], idx)[0] is True:
+            best = (idx, val)
+    if best is None:
+        return None, f"no write to `{txt}` before the kernel call in this method"
+    return best[1], ""
+
+
 def _literal_dict(d):
     if isinstance(d, ast.Dict) and all(isinstance(k, ast.Constant) and isinstance(v, ast.Constant) for k, v in zip(d.keys, d.values)):
         return {k.value: v.value for k, v in zip(d.keys, d.values)}
@@ -608,14 +646,18 @@ def run(chk):
     table, has_raise, node = edge_codes(chk, mode_attribute(chk, kmod))
     ok = bad = None
     dup = {v for v in table.values() if list(table.values()).count(v) > 1}
-    if set(table) == set(MODES) and not dup and has_raise:
+    extra = sorted(set(table) - set(MODES))
+    if set(MODES) <= set(table) and not dup and has_raise:
+        # modes offered NEXT TO the three of the property (a feature added beside the old behaviour) are outside the property: they must
+        # only keep their codes apart from the three (no duplicate code), which the table read above shows
         ok = True
     elif dup:
         bad = f"modes {sorted(k for k, v in table.items() if v in dup)} share the code {sorted(dup)[0]}: one of them runs the other's boundary rule"
     elif set(MODES) - set(table) and set(table) <= set(MODES) and table and getattr(edge_codes, "complete", False):
         # VIOLATED: the whole dispatch was read (every arm of the chain / the literal table) and a mode of the property is not in it
         bad = f"mode(s) {sorted(set(MODES) - set(table))} of the property are no longer offered (mode table {table})"
-    chk.pat("E3-edge-modes", node, "edge -> self._edgeType", ok, f"modes {table}; any other string is refused", bad,
+    chk.pat("E3-edge-modes", node, "edge -> self._edgeType", ok, f"modes {table}; any other string is refused" +
+            (f" (additional mode(s) {extra} with their own codes are outside the property)" if extra else ""), bad,
             file=U.ADV, func="VParallelAdvection.__init__")
     fnk = kmod.func(GEN)
     gformals = [a.arg for a in fnk.args.args]
@@ -733,6 +775,16 @@ def run(chk):
                           "(zero displacement, or a displacement of a whole number of cells reaching vMax) is moved to vMin and takes the "
                           "spline's value there, whereas the kernel's own periodic image leaves it on vMax; the spline in v is clamped, "
                           "so the two values differ")
+    if okf is None and ((feet is None and isinstance(feet_node, ast.Name)) or
+                        (isinstance(feet, ast.Attribute) and isinstance(feet.value, ast.Name) and feet.value.id == "self"
+                         and src(feet) != "self._points")):
+        # a workspace (local or attribute of the object) filled before the call: its value at the call is the last complete write of
+        # the statement list (allocation first, `np.subtract(.., out=ws)` / `ws[:] = ..` later)
+        v_, why_ = _place_value(step, feet_node, c)
+        if v_ is not None:
+            feet = v_
+        elif isinstance(feet, ast.Attribute):
+            feet, detail = None, f"feet `{src(feet_node)}` not extractable: {why_}"
     if feet is not None:
         P, cc, dt = sp.symbols("P c dt", real=True)
         try:
@@ -788,9 +840,14 @@ def run(chk):
     elif len(ci) == 1 and src(ci[0].func.value) == "self._interpolator":
         bi = agree.bind_call(ci[0], ["ug", "spl"]) or {}
         if set(bi) == {"ug", "spl"} and same_expr(bi["ug"], "f") and same_expr(bi["spl"], "self._spline"):
-            if pos(ci[0]) < pos(c):
+            # ASSUMPTION of both verdicts: the ORDER of execution of the two calls.  It is read from the statement list that holds both
+            # (C05.exec_order), not from line numbers: the statements of a helper written back in place all carry the position of the
+            # call they replace.  HOLDS needs the interpolation to be an unconditional statement of that list.
+            from .C05 import exec_order
+            before, st_i, st_k = exec_order(step, ci[0], c)
+            if before is True and isinstance(st_i, ast.Expr) and st_i.value is ci[0]:
                 oki = True
-            else:
+            elif before is False and isinstance(st_i, ast.Expr) and st_i.value is ci[0]:
                 badi = ("the spline is recomputed only after the kernel has evaluated it: the kernel sees the previous call's spline and the "
                         "new one interpolates already advected values")
     chk.pat("E2-interpolate-before-evaluate", ci[0] if ci else step, "compute_interpolant(f, self._spline)", oki,
